@@ -181,6 +181,8 @@ def _loop_guard(ctx, c, s, fi, sim, world, cur, POP, STEP) -> None:
             if src != sub:
                 if src[0] == "idx" and src[1] == tiers:
                     pr.append(f"the guard inspects {T.show(src)} instead of all sub-tiers {T.show(sub)}")
+                elif src[0] == "idx" and src[1][0] == "attr" and src[1][2] == "tiers":
+                    pr.append(f"the guard inspects {T.show(src)}, not the sub-tiers of the step that is about to be performed ({T.show(sub)})")
                 elif src == tiers:
                     pr.append("the guard also tests the main time tier against the iteration bound")
                 else:
@@ -202,6 +204,8 @@ def _loop_guard(ctx, c, s, fi, sim, world, cur, POP, STEP) -> None:
         pass
     elif any(True for _ in T.find(gt, lambda x: x[0] == "agg" and x[1] == "all" and T.contains(x, bound))):
         pr.append("the guard requires all sub-tiers to exceed the bound (any tier must suffice)")
+    elif gt[0] == "not" and gt[1][0] == "agg" and T.contains(gt, bound):
+        pr.append("the loop guard is negated: runs abort unless some sub-step counter has reached the bound")
     else:
         verdict_unknown = True
     if not is_simulation_error(ctx, r.term) or not names_sim(r.term, sim):
